@@ -30,7 +30,7 @@ fn candidates(v: &RVal) -> Vec<RVal> {
         }
         RVal::Object(kv) => {
             let mut c: Vec<RVal> = kv.iter().map(|(k, _)| s(k)).collect();
-            c.extend([s("size"), s("zz"), s("7"), RVal::Int(0)]);
+            c.extend([s("size"), s("zz"), s("7"), s("007"), s("+1"), s("1"), RVal::Int(0)]);
             c
         }
         RVal::Str(_) => vec![s("size"), s("zz"), RVal::Int(0)],
@@ -44,7 +44,7 @@ fn fixed_roots() -> Vec<RVal> {
             ("a", arr(vec![RVal::Int(10), s("héllo"), arr(vec![RVal::Int(1), RVal::Int(2), RVal::Int(3)]), obj(vec![("k", s("v")), ("size", s("own-size"))]), RVal::Nil])),
             ("size", RVal::Int(99)),
             ("first", s("own-first")),
-            ("o", obj(vec![("7", s("seven")), ("é", arr(vec![])), ("a b", RVal::Bool(false)), ("last", arr(vec![s("x")]))])),
+            ("o", obj(vec![("7", s("seven")), ("+1", s("plus-one")), ("01", s("zero-one")), ("é", arr(vec![])), ("a b", RVal::Bool(false)), ("last", arr(vec![s("x")]))])),
             ("s", s("日本語")),
             ("e", arr(vec![])),
         ]),
@@ -61,7 +61,7 @@ fn gen_root(r: &mut Rng) -> RVal {
             3 => RVal::Bool(r.chance(1, 2)),
             4 | 5 => arr((0..r.below(6)).map(|_| value(r, depth + 1)).collect()),
             _ => {
-                let keys = ["k", "size", "first", "last", "0", "12", "é", "a b", "x_1", "K"];
+                let keys = ["k", "size", "first", "last", "0", "12", "é", "a b", "x_1", "K", "012", "+0", "1"];
                 let n = r.below(4);
                 let mut kv: Vec<(String, RVal)> = Vec::new();
                 for _ in 0..n {
@@ -94,7 +94,7 @@ fn decoy_for(v: &RVal) -> RVal {
         }
         RVal::Object(kv) => {
             let mut kv2: Vec<(String, RVal)> = kv.iter().map(|(k, v)| (k.clone(), decoy_for(v))).collect();
-            for k in ["zz", "7", "0", "k", "é", "x_1"] {
+            for k in ["zz", "7", "0", "k", "é", "x_1", "1", "12"] {
                 if !kv2.iter().any(|(kk, _)| kk == k) {
                     kv2.push((k.to_string(), RVal::Str(format!("decoy-{k}"))));
                 }
